@@ -15,13 +15,67 @@ use proptest::strategy::BoxedStrategy;
 
 pub struct C03;
 
+
+/// black-box channel: weighted (or hop-count) distances and centralities must equal those computed
+/// from get_all_edges() alone. Runs in the middle of the history as well as at its end, so that an
+/// algorithm call that leaves something behind in the graph object (a cache) is followed by
+/// further mutations and another call.
+fn blackbox(g: &G, m: &Model, out: &mut Outcome) {
+if out.failures.is_empty() && !m.nodes.is_empty() {
+        let ng = ng_from_graph(g);
+        let weighted = ng.weighted;
+        let w = weight_matrix(&ng, weighted);
+        let d = floyd(&w);
+        let mode = if weighted { "weighted" } else { "hops" };
+        for s in 0..ng.n {
+            out.api_calls += 1;
+            match guard(|| dijkstra::single_source(g, weighted, ng.names[s].clone(), None, None, false, false)) {
+                Err(p) => out.fail(format!("single_source[{}]/panic/{}", mode, panic_class(&p)), p),
+                Ok(Err(e)) => out.fail(format!("single_source[{}]/error/{}", mode, kind_of(&e)), e.message.clone()),
+                Ok(Ok(ans)) => {
+                    for t in 0..ng.n {
+                        let got = ans.get(&ng.names[t]).map(|i| i.distance);
+                        let want = if d[s][t] < INF { Some(d[s][t]) } else { None };
+                        if got != want {
+                            let class = match (got, want) {
+                                (Some(a), Some(b)) if a < b => "shorter_than_stored_edges_allow",
+                                (Some(_), Some(_)) => "longer_than_stored_edges_allow",
+                                (None, Some(_)) => "stored_edge_not_traversed",
+                                _ => "traversed_edge_not_stored",
+                            };
+                            out.fail(format!("single_source[{}]/ne_oracle_on_get_all_edges/{}", mode, class), format!("d({:?},{:?}) = {:?} but get_all_edges() gives {:?}", ng.names[s], ng.names[t], got, want));
+                            break;
+                        }
+                    }
+                }
+            }
+        }
+        if out.failures.is_empty() && ng.n <= 6 {
+            let mut want = betweenness_brute(&w);
+            rescale_betweenness(&mut want, ng.n, false, ng.directed);
+            out.api_calls += 2;
+            match guard(|| betweenness_centrality(g, weighted, false)) {
+                Err(p) => out.fail(format!("betweenness_centrality[{}]/panic/{}", mode, panic_class(&p)), p),
+                Ok(Err(e)) => out.fail(format!("betweenness_centrality[{}]/error/{}", mode, kind_of(&e)), e.message.clone()),
+                Ok(Ok(got)) => compare_node_map(&ng, &got, &want, 1e-9, 1e-12, &format!("betweenness_centrality[{}]/ne_oracle_on_get_all_edges", mode), out),
+            }
+            let wantc = closeness(&d, true);
+            match guard(|| closeness_centrality(g, weighted, true)) {
+                Err(p) => out.fail(format!("closeness_centrality[{}]/panic/{}", mode, panic_class(&p)), p),
+                Ok(Err(e)) => out.fail(format!("closeness_centrality[{}]/error/{}", mode, kind_of(&e)), e.message.clone()),
+                Ok(Ok(got)) => compare_node_map(&ng, &got, &wantc, 1e-12, 1e-15, &format!("closeness_centrality[{}]/ne_oracle_on_get_all_edges", mode), out),
+            }
+        }
+    }
+}
+
 impl Prop for C03 {
     type Case = HistCase;
     fn id(&self) -> &'static str {
         "C03"
     }
     fn rule(&self) -> String {
-        "C01 histories restricted to uniformly weighted (positive dyadic k/4) or uniformly unweighted edges, all 96 specs (exhaustive block of length <= 3 incl. a lighter and a heavier duplicate, random block of length <= 24/60). After every step (hook) each traversal list must hold exactly the stored neighbours with the bit-exact minimum stored weight of the pair; at the end of the history (black box) single_source from every node, betweenness and closeness must equal Floyd-Warshall / brute-force oracles evaluated on get_all_edges() alone. Non-trivial = the history inserted a second edge on an occupied pair with a different weight and the final graph has >= 1 edge between distinct nodes; distinct = distinct serialised history.".into()
+        "C01 histories restricted to uniformly weighted (positive dyadic k/4) or uniformly unweighted edges, all 96 specs (exhaustive block of length <= 3 incl. a lighter and a heavier duplicate, random block of length <= 24/60). After every step (hook) each traversal list must hold exactly the stored neighbours with the bit-exact minimum stored weight of the pair; in the middle and at the end of the history (black box) single_source from every node, betweenness and closeness must equal Floyd-Warshall / brute-force oracles evaluated on get_all_edges() alone. Non-trivial = the history inserted a second edge on an occupied pair with a different weight and the final graph has >= 1 edge between distinct nodes; distinct = distinct serialised history.".into()
     }
     fn assumptions(&self) -> Vec<String> {
         vec!["histories are uniformly weighted or uniformly unweighted, as the property states".into(), "the snapshot hook copies successors_vec / predecessors_vec faithfully".into()]
@@ -30,11 +84,12 @@ impl Prop for C03 {
         let mut v = gen::enumerate_histories(1);
         v.extend(gen::enumerate_histories(2));
         v.extend(gen::enumerate_histories(3));
+        v.extend(gen::enumerate_histories(5));
         v
     }
     fn strategy(&self, tier: Tier) -> BoxedStrategy<HistCase> {
         use proptest::prelude::*;
-        prop_oneof![60 => gen::hist(tier.pick(24, 60), &[1, 1, 1, 2, 3, 4]), 1 => gen::hist_big(&[1, 1, 2, 3, 4])].boxed()
+        prop_oneof![60 => gen::hist(tier.pick(24, 60), &[1, 1, 1, 2, 3, 4, 5]), 1 => gen::hist_big(&[1, 1, 2, 3, 4, 5])].boxed()
     }
     fn extra_evidence(&self, root: &std::path::Path) -> serde_json::Value {
         crate::engine::fuzz_stats(root, "graph_history")
@@ -54,7 +109,11 @@ impl Prop for C03 {
         if whitebox {
             traversal_check(&g, &m, &mut out);
         }
-        for op in &case.ops {
+        let mid = case.ops.len() / 2;
+        for (step, op) in case.ops.iter().enumerate() {
+            if step == mid && step > 0 && case.wmode != 5 {
+                blackbox(&g, &m, &mut out);
+            }
             let (mr, gr) = apply(op, case.wmode, &mut m, &mut g);
             out.api_calls += 1;
             if mr != gr {
@@ -68,53 +127,8 @@ impl Prop for C03 {
                 break;
             }
         }
-        // black-box channel: weighted (or hop-count) distances and centralities must equal those
-        // computed from get_all_edges() alone
-        if out.failures.is_empty() && !m.nodes.is_empty() {
-            let ng = ng_from_graph(&g);
-            let weighted = ng.weighted;
-            let w = weight_matrix(&ng, weighted);
-            let d = floyd(&w);
-            let mode = if weighted { "weighted" } else { "hops" };
-            for s in 0..ng.n {
-                out.api_calls += 1;
-                match guard(|| dijkstra::single_source(&g, weighted, ng.names[s].clone(), None, None, false, false)) {
-                    Err(p) => out.fail(format!("single_source[{}]/panic/{}", mode, panic_class(&p)), p),
-                    Ok(Err(e)) => out.fail(format!("single_source[{}]/error/{}", mode, kind_of(&e)), e.message.clone()),
-                    Ok(Ok(ans)) => {
-                        for t in 0..ng.n {
-                            let got = ans.get(&ng.names[t]).map(|i| i.distance);
-                            let want = if d[s][t] < INF { Some(d[s][t]) } else { None };
-                            if got != want {
-                                let class = match (got, want) {
-                                    (Some(a), Some(b)) if a < b => "shorter_than_stored_edges_allow",
-                                    (Some(_), Some(_)) => "longer_than_stored_edges_allow",
-                                    (None, Some(_)) => "stored_edge_not_traversed",
-                                    _ => "traversed_edge_not_stored",
-                                };
-                                out.fail(format!("single_source[{}]/ne_oracle_on_get_all_edges/{}", mode, class), format!("d({:?},{:?}) = {:?} but get_all_edges() gives {:?}", ng.names[s], ng.names[t], got, want));
-                                break;
-                            }
-                        }
-                    }
-                }
-            }
-            if out.failures.is_empty() && ng.n <= 6 {
-                let mut want = betweenness_brute(&w);
-                rescale_betweenness(&mut want, ng.n, false, ng.directed);
-                out.api_calls += 2;
-                match guard(|| betweenness_centrality(&g, weighted, false)) {
-                    Err(p) => out.fail(format!("betweenness_centrality[{}]/panic/{}", mode, panic_class(&p)), p),
-                    Ok(Err(e)) => out.fail(format!("betweenness_centrality[{}]/error/{}", mode, kind_of(&e)), e.message.clone()),
-                    Ok(Ok(got)) => compare_node_map(&ng, &got, &want, 1e-9, 1e-12, &format!("betweenness_centrality[{}]/ne_oracle_on_get_all_edges", mode), &mut out),
-                }
-                let wantc = closeness(&d, true);
-                match guard(|| closeness_centrality(&g, weighted, true)) {
-                    Err(p) => out.fail(format!("closeness_centrality[{}]/panic/{}", mode, panic_class(&p)), p),
-                    Ok(Err(e)) => out.fail(format!("closeness_centrality[{}]/error/{}", mode, kind_of(&e)), e.message.clone()),
-                    Ok(Ok(got)) => compare_node_map(&ng, &got, &wantc, 1e-12, 1e-15, &format!("closeness_centrality[{}]/ne_oracle_on_get_all_edges", mode), &mut out),
-                }
-            }
+        if case.wmode != 5 {
+            blackbox(&g, &m, &mut out);
         }
         classify(case, &m, &mut out);
         out.nontrivial = (m.ev.dup_lighter + m.ev.dup_heavier) > 0 && m.edges.iter().any(|e| e.u != e.v);
